@@ -424,3 +424,141 @@ Definition ex_ok : bool :=
 
 Example recover_restartable_example : ex_ok = true.
 Proof. vm_compute. reflexivity. Qed.
+
+(* ---------- Migrate of one segment: at every crash point the segment is clean and holds the same messages *)
+
+Lemma placed_at_placed v : forall ms pos, placed_at v pos ms = placed v pos ms.
+Proof. induction ms as [|m r IH]; intros pos; [reflexivity|]. cbn [placed_at placed]. now rewrite IH. Qed.
+
+Lemma map_snd_placed v : forall ms pos, map snd (placed v pos ms) = ms.
+Proof. induction ms as [|m r IH]; intros pos; [reflexivity|]. cbn [placed map snd]. now rewrite IH. Qed.
+
+Section Migrate.
+Variables crc H : bytes -> Z.
+Hypothesis Hcrc : crc_range crc.
+Hypothesis Hhash : forall k, 0 <= H k < two64z.
+
+Lemma check_clean p base v ms idx :
+  Forall msg_ok ms -> log_version (enc_log crc v ms) base = Ok v ->
+  index_is p base idx (scan_items H p (placed v (hdr_size v) ms)) ->
+  check_bytes crc H p base (enc_log crc v ms) idx = Ok tt.
+Proof.
+  intros Hall Hv Hidx. unfold check_bytes. rewrite Hv. cbn [bind]. rewrite (scan_encoded_log crc v ms Hcrc Hall).
+  destruct idx as [ib|]; [|reflexivity]. destruct Hidx as (iv & Hir). rewrite Hir. cbn [bind snd].
+  replace (list_eqb item_eqb _ _) with true by (symmetry; apply items_eqb_eq; reflexivity). reflexivity.
+Qed.
+
+Variables (p : params) (base : Z) (v mv iv : ver) (ms : list msg) (idx0 : option bytes).
+Hypothesis Hall : Forall msg_ok ms.
+Hypothesis Hbase : 0 <= base < two63.
+Hypothesis Hfirst : match ms with [] => True | m :: _ => moff m = base end.   (* the file is named after its first record *)
+Hypothesis Hdiff : ver_eqb v mv = false.
+Hypothesis Hsize : hdr_size mv + recs_size mv ms < two63.
+(* the segment is clean before: its index file is absent or the one derived from its log *)
+Hypothesis Hidx0 : index_is p base idx0 (scan_items H p (placed v (hdr_size v) ms)).
+
+Let oldlog := enc_log crc v ms.
+Let newlog := enc_log crc mv ms.
+Let items' := scan_items H p (placed mv (hdr_size mv) ms).
+
+Lemma version_of_enc w : log_version (enc_log crc w ms) base = Ok w.
+Proof.
+  destruct w; [apply log_version_enc_v1|apply log_version_enc_v2].
+  destruct ms as [|m r]; [exact I|]. split; [exact Hfirst|exact Hbase].
+Qed.
+
+Lemma migrate_prog_eq :
+  migrate_prog crc H p base mv iv oldlog =
+    Ok ([RRemove RfIdx] ++ copy_part crc mv ms ++ [RRename RfRtmp RfLog] ++ index_write_prog p iv items').
+Proof.
+  unfold migrate_prog, oldlog. rewrite (version_of_enc v). cbn [bind]. rewrite Hdiff.
+  rewrite (scan_encoded_log crc v ms Hcrc Hall). rewrite map_snd_placed. unfold items'. now rewrite placed_at_placed.
+Qed.
+
+Lemma new_index_is : index_is p base (Some (enc_index iv p items')) items'.
+Proof.
+  exists iv. apply index_read_enc.
+  - unfold items'. apply (scan_items_ok H Hhash); [exact Hall|destruct mv; cbn; lia|exact Hsize].
+  - intros ->. unfold items', scan_items. destruct ms as [|m r]; [exact I|]. cbn [placed]. cbn [ioff new_item].
+    split; [exact Hfirst|lia].
+Qed.
+
+(* the four directories a crash can leave, all clean, all holding ms *)
+Definition migrate_good (st : rfiles) : Prop :=
+  (rlog st = oldlog /\ (ridx st = idx0 \/ ridx st = None)) \/
+  (rlog st = newlog /\ (ridx st = None \/ ridx st = Some (enc_index iv p items'))).
+
+Lemma migrate_good_checks st : migrate_good st ->
+  check_bytes crc H p base (rlog st) (ridx st) = Ok tt /\ exists w, (w = v \/ w = mv) /\ rlog st = enc_log crc w ms.
+Proof.
+  intros [[-> Hi]|[-> Hi]].
+  - split; [|exists v; split; [now left|reflexivity]]. apply check_clean; [exact Hall|apply version_of_enc|].
+    destruct Hi as [-> | ->]; [exact Hidx0|exact I].
+  - split; [|exists mv; split; [now right|reflexivity]]. apply check_clean; [exact Hall|apply version_of_enc|].
+    destruct Hi as [-> | ->]; [exact I|exact new_index_is].
+Qed.
+
+Lemma migrate_prefix rt it k :
+  migrate_good (rrun (mkRf oldlog rt idx0 it)
+     (firstn k ([RRemove RfIdx] ++ copy_part crc mv ms ++ [RRename RfRtmp RfLog] ++ index_write_prog p iv items'))).
+Proof.
+  set (st0 := mkRf oldlog rt idx0 it). destruct k as [|k]; [left; split; [reflexivity|now left]|].
+  cbn [app firstn]. rewrite rrun_cons. set (st1 := rexec st0 (RRemove RfIdx)).
+  assert (L1 : rlog st1 = oldlog) by reflexivity. assert (I1 : ridx st1 = None) by reflexivity.
+  rewrite firstn_app. destruct (Nat.le_gt_cases k (length (copy_part crc mv ms))) as [Hle|Hgt].
+  - replace (k - length (copy_part crc mv ms))%nat with O by lia. cbn [firstn]. rewrite app_nil_r.
+    destruct (copy_prefix_vis crc mv ms st1 k) as [Hl Hi]. left. split; [congruence|right; congruence].
+  - rewrite firstn_all2 by lia. remember (k - length (copy_part crc mv ms))%nat as k1. destruct k1 as [|k1]; [lia|].
+    cbn [app firstn]. rewrite rrun_app, rrun_cons.
+    destruct (copy_result crc mv ms st1) as (Ht & Hl & Hi & _).
+    set (st2 := rexec (rrun st1 (copy_part crc mv ms)) (RRename RfRtmp RfLog)).
+    assert (L2 : rlog st2 = newlog /\ ridx st2 = None).
+    { unfold st2. cbn [rexec rget]. rewrite Ht. cbn [rset rlog ridx rrtmp ritmp]. split; [reflexivity|congruence]. }
+    destruct L2 as [L2 I2]. right.
+    assert (Hlog : rlog (rrun st2 (firstn k1 (index_write_prog p iv items'))) = newlog).
+    { rewrite <- L2. apply rlog_of_rget. apply (rrun_keeps is_index); [apply forallb_firstn, index_write_all_index|reflexivity]. }
+    split; [exact Hlog|].
+    destruct (Nat.lt_ge_cases k1 (length (index_write_prog p iv items'))) as [Hlt|Hge].
+    + left. rewrite (firstn_removelast _ _ Hlt).
+      pose proof (rrun_keeps is_itmp _ st2 RfIdx (forallb_firstn _ _ k1 (index_write_only p iv items')) eq_refl) as Hk.
+      cbn [rget] in Hk. congruence.
+    + right. rewrite firstn_all2 by exact Hge. apply index_write_result.
+Qed.
+
+(* THE THEOREM: k whole steps, j bytes of an append in flight, any stale temporary files *)
+Theorem migrate_crash_safe prog rt it k j :
+  migrate_prog crc H p base mv iv oldlog = Ok prog ->
+  let img := rimage (mkRf oldlog rt idx0 it) prog k j in
+  check_bytes crc H p base (rlog img) (ridx img) = Ok tt /\ exists w, (w = v \/ w = mv) /\ rlog img = enc_log crc w ms.
+Proof.
+  intros Hp. rewrite migrate_prog_eq in Hp. apply Ok_inj in Hp. subst prog. cbv zeta.
+  set (prog := [RRemove RfIdx] ++ copy_part crc mv ms ++ [RRename RfRtmp RfLog] ++ index_write_prog p iv items').
+  assert (Hw : forallb writes_tmp_only prog = true).
+  { unfold prog. rewrite !forallb_app. cbn [forallb writes_tmp_only andb].
+    assert (H1 : forallb writes_tmp_only (copy_part crc mv ms) = true).
+    { unfold copy_part. rewrite !forallb_app. cbn. rewrite forallb_map_const; [reflexivity|]. intros x; reflexivity. }
+    assert (H2 : forallb writes_tmp_only (index_write_prog p iv items') = true).
+    { unfold index_write_prog. rewrite !forallb_app. cbn. rewrite forallb_map_const; [reflexivity|]. intros x; reflexivity. }
+    now rewrite H1, H2. }
+  destruct (rimage_vis (mkRf oldlog rt idx0 it) prog k j Hw) as [EL EI].
+  pose proof (migrate_prefix rt it k) as G. fold prog in G.
+  destruct (migrate_good_checks _ G) as [Hc (w & Hw' & Hl)]. rewrite EL, EI. split; [exact Hc|]. exists w. split; [exact Hw'|exact Hl].
+Qed.
+
+(* run to its end: the log in the target version, the index derived from it, no temporary copy *)
+Theorem migrate_prog_result prog rt it :
+  migrate_prog crc H p base mv iv oldlog = Ok prog ->
+  rlog (rrun (mkRf oldlog rt idx0 it) prog) = enc_log crc mv ms /\
+  ridx (rrun (mkRf oldlog rt idx0 it) prog) = Some (enc_index iv p (scan_items H p (placed mv (hdr_size mv) ms))).
+Proof.
+  intros Hp. rewrite migrate_prog_eq in Hp. apply Ok_inj in Hp. subst prog.
+  cbn [app]. rewrite rrun_cons, rrun_app, rrun_cons.
+  set (st1 := rexec (mkRf oldlog rt idx0 it) (RRemove RfIdx)).
+  destruct (copy_result crc mv ms st1) as (Ht & _ & _ & _).
+  set (st2 := rexec (rrun st1 (copy_part crc mv ms)) (RRename RfRtmp RfLog)).
+  assert (L2 : rlog st2 = newlog) by (unfold st2; cbn [rexec rget]; rewrite Ht; reflexivity).
+  split; [|apply index_write_result].
+  change (enc_log crc mv ms) with newlog. rewrite <- L2. apply rlog_of_rget. apply (rrun_keeps is_index); [apply index_write_all_index|reflexivity].
+Qed.
+
+End Migrate.
